@@ -422,6 +422,15 @@ def run(prog: Program, chk: Check) -> None:
                 ctx = branch_context(u.node, c)
                 ow = [br for (t, br) in ctx if dotted(t) == "self._overwrite"]
                 in_cls = u.cls == "FileProcessTensor" and u.module.short == PT
+                if isinstance(mode, ast.IfExp) and dotted(mode.test) == "self._overwrite" \
+                        and isinstance(mode.body, ast.Constant) and isinstance(mode.orelse, ast.Constant):
+                    # one call site for both creating modes: 'w' if self._overwrite else 'x'
+                    ok = in_cls and u.name == "_create_file" and not ow \
+                        and mode.body.value == "w" and mode.orelse.value in ("x", "w-")
+                    chk.add("W4", u, f"h5py.File(..., {norm(mode)})", ok,
+                            "truncating open only under self._overwrite, exclusive create otherwise"
+                            if ok else "the open mode is not 'w' under self._overwrite and 'x' otherwise", c)
+                    continue
                 if mv == "r":
                     ok, why = True, "read-only open"
                     if in_cls and u.name != "_read_file":
@@ -440,8 +449,10 @@ def run(prog: Program, chk: Check) -> None:
                         "is not one of 'r'/'x'/'w' (default/'a'/'r+' silently modify an existing file)"
                 chk.add("W4", u, f"h5py.File(..., {norm(mode) if mode is not None else '<default>'})",
                         ok, why, c)
-    if n_open < 3:
-        raise AnalysisError(f"W4: only {n_open} h5py.File opens found (floor 3)")
+    if n_open < 2:
+        # (one read-only open and at least one creating open: the two creating modes may share
+        # a call site - whether that call is guarded is what the table above judges)
+        raise AnalysisError(f"W4: only {n_open} h5py.File opens found (floor 2)")
     # _create_file is called only when self._write holds; _read_file only otherwise
     for callee, want in (("_create_file", True), ("_read_file", False)):
         sites = [c for c in walk_local(init.node)
@@ -476,6 +487,16 @@ def run(prog: Program, chk: Check) -> None:
                     n_rm += 1
                     ctx = branch_context(u.node, c)
                     guarded = [br for (t, br) in ctx if dotted(t) == "self._removeable"] == [True]
+                    if not guarded:
+                        # guard clause in front: `if not self._removeable: raise ...`
+                        top = list(u.node.body)
+                        upto = next((i for i, b in enumerate(top) if any(x is c for x in ast.walk(b))), 0)
+                        for b in top[:upto]:
+                            t_ = b.test if isinstance(b, ast.If) else None
+                            if t_ is not None and isinstance(t_, ast.UnaryOp) and isinstance(t_.op, ast.Not) \
+                                    and dotted(t_.operand) == "self._removeable" and not b.orelse \
+                                    and b.body and isinstance(b.body[-1], (ast.Raise, ast.Return)):
+                                guarded = True
                     ok = u.cls == "FileProcessTensor" and u.name == "remove" and guarded
                     chk.add("W5", u, f"{_resolve(u.module, c)}(...)", ok,
                             "guarded by self._removeable" if ok else
